@@ -46,26 +46,27 @@ cfg("asyncio_t_b3", "C17 thorough, B = 3 with low-water 0 (EPOLLOUT only when th
     "solo", B=3, LW=0, MaxLen=5, MaxOps=4, MaxPeerOps=3)
 cfg("asyncio_t_b3n", "C17 thorough, B = 3 with the naive low-water mark 2: solo, scripts <= 4 operations, strings <= 4 bytes, peer <= 3.",
     "solo", B=3, LW=2, MaxLen=4, MaxOps=4, MaxPeerOps=3)
-# the finding: several tasks on one adapter -- TLC must report Inv_C17_NeverStuck violated for the code as it is
-cfg("asyncio_shared_split", "FINDING (spec/ASYNCIO_FINDINGS.md): a reader task and a writer task share ONE adapter (split()/Rc<RefCell>): the single waker\nslot and the single interest are overwritten.  TLC must report Inv_C17_NeverStuck violated with Variants = {} (the code as it is).",
-    "split", MaxOps=2, MaxChunk=2, AsyncPeer=False)
-cfg("asyncio_shared_join", "FINDING: ONE task polls a read and a write on the same adapter (safe &mut use): the write's WouldBlock replaces the READ interest.\nTLC must report Inv_C17_NeverStuck violated with Variants = {}.",
-    "join", MaxOps=2, MaxChunk=2, AsyncPeer=False)
-cfg("asyncio_fix_split", "candidate fix (one waker per direction, interest = union, readiness() consumes one bit, process_events re-arms what is still\nwaited for): the invariants hold for a shared adapter.",
-    "split", MaxOps=3, MaxChunk=2, Variants='{"fix_two_wakers"}')
-cfg("asyncio_fix_join", "candidate fix, one task polling both directions: the invariants hold.",
-    "join", MaxOps=3, MaxChunk=2, Variants='{"fix_two_wakers"}')
-cfg("asyncio_fix_solo", "candidate fix, ordinary use (solo): the invariants still hold.",
-    "solo", Variants='{"fix_two_wakers"}', MaxAdapt=2, WithFile=True, MaxPeerOps=2)
-V = {"dropfd": ("drop_keeps_fd", "Inv_C17_Released", "kill() does not delete the fd from the poller (before f0ccfc5)"),
-     "adaptleak": ("failed_adapt_leaks", "Inv_C17_Released", "a failing adapt_io keeps the slot and O_NONBLOCK (before ae70cc3); checked against Blocking alone in asyncio_var_adaptleak_b"),
-     "rearm": ("rearm_skipped", "Inv_C17_NeverStuck", "the waker is stored but the one-shot registration is not renewed when the interest is unchanged"),
-     "interest": ("interest_not_switched", "Inv_C17_NeverStuck", "register_waker keeps the interest of the first registration"),
-     "flags": ("flags_not_restored", "Inv_C17_Blocking", "Drop does not restore the blocking mode"),
-     "nowake": ("no_wake", "Inv_C17_NeverStuck", "process_events stores the readiness but does not wake the waker")}
-for k, (v, inv, what) in V.items():
-    cfg("asyncio_var_" + k, "non-vacuity: %s.  TLC must report %s violated." % (what, inv), "solo", MaxChunk=2, MaxAdapt=2, WithFile=True,
-        Variants='{"%s"}' % v, AsyncPeer=False)
+# two futures on ONE adapter (fixed by 0061559: one waker per direction): the normal invariants
+SH = "a reader and a writer pending on ONE adapter at the same time"
+cfg("asyncio_q_split", "C17 quick, topology split (" + SH + ": two tasks, futures' split() / Rc<RefCell>): scripts of <= 2 operations per task,\nchunk sizes 1..2, strings <= 3 bytes, peer scripts <= 3 operations.", "split", MaxOps=2, MaxChunk=2, AsyncPeer=False)
+cfg("asyncio_q_join", "C17 quick, topology join (" + SH + ": ONE task polling both, one waker): scripts of <= 2 operations per branch,\nchunk sizes 1..2, strings <= 3 bytes, peer scripts <= 3 operations.", "join", MaxOps=2, MaxChunk=2, AsyncPeer=False)
+cfg("asyncio_t_split", "C17 thorough, topology split: scripts of <= 3 operations per task, chunk sizes 1..2, strings <= 3 bytes, peer <= 3 operations, also in the middle of a dispatch.",
+    "split", MaxOps=3, MaxChunk=2)
+cfg("asyncio_t_join", "C17 thorough, topology join: scripts of <= 3 operations per branch, chunk sizes 1..2, strings <= 3 bytes, peer <= 3 operations, also in the middle of a dispatch.",
+    "join", MaxOps=3, MaxChunk=2)
+V = {"dropfd": ("drop_keeps_fd", "solo", "Inv_C17_Released", "kill() does not delete the fd from the poller (before f0ccfc5)"),
+     "adaptleak": ("failed_adapt_leaks", "solo", "Inv_C17_Released", "a failing adapt_io keeps the slot and O_NONBLOCK (before ae70cc3); checked against Blocking alone in asyncio_var_adaptleak_b"),
+     "killsother": ("failed_adapt_kills_other", "solo", "Inv_C17_Released", "a failing adapt_io of an fd that already has a live adapter deletes that adapter's registration (0061559, before 64b68d5)"),
+     "rearm": ("rearm_skipped", "solo", "Inv_C17_NeverStuck", "the waker is stored but the one-shot registration is not renewed when the interest equals the one registered last"),
+     "interest": ("interest_not_switched", "split", "Inv_C17_NeverStuck", "register_waker leaves a non-empty interest as it is: the second direction is not added"),
+     "flags": ("flags_not_restored", "solo", "Inv_C17_Blocking", "Drop does not restore the blocking mode"),
+     "nowake": ("no_wake", "solo", "Inv_C17_NeverStuck", "process_events takes the wakers of the reported directions but does not wake them"),
+     "single_split": ("single_waker", "split", "Inv_C17_NeverStuck", "the code before 0061559 (ONE waker slot, ONE interest), a reader task and a writer task on one adapter"),
+     "single_join": ("single_waker", "join", "Inv_C17_NeverStuck", "the code before 0061559 (ONE waker slot, ONE interest), one task polling a read and a write on one adapter"),
+     "norearm": ("no_rearm_after_event", "split", "Inv_C17_NeverStuck", "process_events does not renew the one-shot registration for the direction that is still waited for")}
+for k, (v, topo, inv, what) in V.items():
+    cfg("asyncio_var_" + k, "non-vacuity: %s.  TLC must report %s violated." % (what, inv), topo, MaxChunk=2, MaxAdapt=(2 if topo == "solo" else 1),
+        WithFile=(topo == "solo"), MaxOps=(3 if topo == "solo" else 2), Variants='{"%s"}' % v, AsyncPeer=False)
 cfg("asyncio_var_adaptleak_b", "non-vacuity: a failing adapt_io leaves O_NONBLOCK set.  TLC must report Inv_C17_Blocking violated (only Blocking is checked).",
     "solo", MaxChunk=2, MaxAdapt=2, WithFile=True, Variants='{"failed_adapt_leaks"}', AsyncPeer=False, inv="Inv_C17_Blocking")
 cfg("asyncio_var_nowake_w", "non-vacuity of the quiescence clause: without the wake a task stays parked on a ready fd.  TLC must report Inv_C17_Woken violated (only Woken is checked).",
@@ -80,13 +81,14 @@ cfg("asyncio_scn_two", "scenario extraction (exhaustive): every guided behaviour
 for topo in ("solo", "two", "split", "join"):
     cfg("asyncio_sim_" + topo, "scenario extraction (tlc -simulate, seeded): behaviours of <= 16 controllable steps of topology %s, scripts <= 5 operations,\nchunks 1..3, strings <= 8 bytes over {0,1}, second adapt_io, regular file." % topo,
         topo, MaxLen=8, MaxOps=5, MaxPeerOps=(0 if topo == "two" else 6), MaxAdapt=2, WithFile=True, AsyncPeer=False, RecordHist=True,
-        MaxSteps=16, Guided=True, inv=(INV if topo in ("solo", "two") else "TypeOK Inv_C17_Exact Inv_C17_Blocking Inv_C17_Released"))
+        MaxSteps=16, Guided=True)
 cfg("asyncio_live", "liveness form of Woken under weak fairness of the loop thread (FairSpec): a parked task whose fd is reported ready does not stay\nparked, and the loop settles (it is quiescent again and again: no busy loop).  Small bounds (temporal checking).",
     "solo", MaxLen=2, MaxChunk=2, MaxOps=2, MaxPeerOps=2, AsyncPeer=False, spec="FairSpec", inv="TypeOK", prop="Live_C17_Woken Live_C17_Settles")
 cfg("asyncio_live_two", "liveness, topology two.", "two", MaxLen=2, MaxChunk=2, MaxOps=2, MaxPeerOps=0, AsyncPeer=False, spec="FairSpec", inv="TypeOK",
     prop="Live_C17_Woken Live_C17_Settles")
-cfg("asyncio_live_join", "FINDING, liveness side: ONE task polling readable() and writable() on one adapter -- each readiness() consumes the bit the other one\nwaits for: the loop spins for ever although both directions are ready.  TLC must report the temporal property violated (code as it is).",
-    "join", MaxLen=2, MaxChunk=2, MaxOps=2, MaxPeerOps=2, AsyncPeer=False, spec="FairSpec", inv="TypeOK", prop="Live_C17_Settles")
-cfg("asyncio_live_fix_join", "candidate fix, liveness: the loop settles and every ready task is woken also with two futures on one adapter.",
-    "join", MaxLen=2, MaxChunk=2, MaxOps=2, MaxPeerOps=2, Variants='{"fix_two_wakers"}', AsyncPeer=False, spec="FairSpec", inv="TypeOK",
-    prop="Live_C17_Woken Live_C17_Settles")
+cfg("asyncio_live_split", "liveness, topology split (a reader task and a writer task on one adapter).", "split", MaxLen=2, MaxChunk=2, MaxOps=2, MaxPeerOps=2,
+    AsyncPeer=False, spec="FairSpec", inv="TypeOK", prop="Live_C17_Woken Live_C17_Settles")
+cfg("asyncio_live_join", "liveness, topology join (ONE task polling readable()/read and writable()/write on one adapter): every ready branch is woken and the loop settles.",
+    "join", MaxLen=2, MaxChunk=2, MaxOps=2, MaxPeerOps=2, AsyncPeer=False, spec="FairSpec", inv="TypeOK", prop="Live_C17_Woken Live_C17_Settles")
+cfg("asyncio_var_single_live", "non-vacuity, liveness: the code before 0061559, ONE task polling readable() and writable() on one adapter -- each readiness() consumes the\nbit the other one waits for: the loop spins for ever although both directions are ready.  TLC must report Live_C17_Settles violated.",
+    "join", MaxLen=2, MaxChunk=2, MaxOps=2, MaxPeerOps=2, Variants='{"single_waker"}', AsyncPeer=False, spec="FairSpec", inv="TypeOK", prop="Live_C17_Settles")
